@@ -188,7 +188,7 @@ class MsgBlockList(List["Block"]):
 class Message:
     __slots__ = ("name", "send_flags", "packet_id", "acks", "body_boundaries", "queued",
                  "offset", "raw_extra", "raw_body", "deserializer", "_blocks", "finalized",
-                 "direction", "meta", "synthetic", "dropped", "sender")
+                 "direction", "meta", "synthetic", "dropped", "sender", "raw_trailing")
 
     def __init__(self, name, *args, packet_id=None, flags=0, acks=None, direction=None):
         # TODO: Do this on a timer or something.
@@ -202,6 +202,8 @@ class Message:
         self.body_boundaries = (-1, -1)
         self.offset = 0
         self.raw_extra = b""
+        # Bytes found past the end of the last block the template knows about
+        self.raw_trailing = b""
         self.direction: Direction = direction if direction is not None else Direction.OUT
         # For lazy deserialization
         self.raw_body = None
